@@ -7,6 +7,7 @@ import RactorModel.Lemmas.GenElection
 import RactorModel.Lemmas.GenAuth
 import RactorModel.Lemmas.GenLeakyBucket
 import RactorModel.Lemmas.GenFrame
+import RactorModel.Lemmas.GenJobMeta
 
 /-!
 `xdriver <model> <ops-file> <impl-file>` — differential unit test of the TRANSLATOR
@@ -18,7 +19,7 @@ independently of the hand-written model. Lines of other op kinds are passed thro
 
 models: `x18` (`elect …` lines of the c18 harness), `x17` (`srv`/`srvstart`/`cli` lines of the
 c17 harness), `x15` (`lbnew`/`lbcheck`/`lbbump` lines of the leaky-bucket harness), `x19` (`checklen`,
-`encframe`, `const` lines of the c19 harness).
+`encframe`, `const`, `jobopt` lines of the c19 harness).
 -/
 
 namespace Driver.X
@@ -107,6 +108,15 @@ def step19 (_ : Unit) (op impl : String) : Unit × StepOut :=
   | ["encframe", h] =>
     match unhex? h with
     | some p => ((), { model := hex (Generated.Frame.encode_network_message p []), nontrivial := true })
+    | none => ((), { model := "bad-op" })
+  | ["jobopt", h] =>
+    match unhex? h with
+    | some bs =>
+      -- a default value the wire can never produce marks the `Default::default()` path
+      let dflt : Generated.JobMeta.JobOptions := ⟨2 ^ 64, none⟩
+      let o := Generated.JobMeta.JobOptions.from_bytes dflt bs
+      ((), { model := if o.submit_time == 2 ^ 64 then "default" else s!"ok {o.submit_time} {showTtl o.ttl}",
+             nontrivial := true })
     | none => ((), { model := "bad-op" })
   | _ => ((), pass impl)
 
